@@ -336,6 +336,39 @@ pub fn crash_points(rng: &mut Rng, writes: &[WriteRec], tier: &str) -> Vec<Crash
     pts
 }
 
+/// Crash states beyond issue-order prefixes: at the moment write #i was issued, every write that had completed is on the
+/// device and any subset of the writes still in flight may have landed.  Returns (i, applied write indices) for the
+/// moments with at least two writes in flight, excluding subsets that are issue-order prefixes.
+pub fn inflight_subsets(rng: &mut Rng, writes: &[WriteRec], cap: usize) -> Vec<(usize, Vec<usize>)> {
+    let mut out = vec![];
+    for (i, wi) in writes.iter().enumerate() {
+        let t = wi.t_issue;
+        let completed: Vec<usize> = (0..=i).filter(|j| writes[*j].t_complete != 0 && writes[*j].t_complete < t).collect();
+        let inflight: Vec<usize> = (0..=i).filter(|j| !(writes[*j].t_complete != 0 && writes[*j].t_complete < t)).collect();
+        if inflight.len() < 2 || inflight.len() > 6 {
+            continue;
+        }
+        let n = inflight.len();
+        let mut masks: Vec<u32> = (1..(1u32 << n) - 1).collect();
+        rng.shuffle(&mut masks);
+        for m in masks.into_iter().take(4) {
+            let chosen: Vec<usize> = (0..n).filter(|b| m & (1 << b) != 0).map(|b| inflight[b]).collect();
+            let mut applied = completed.clone();
+            applied.extend(chosen);
+            applied.sort();
+            // a set {0..k} is an ordinary prefix, already enumerated
+            if applied.iter().enumerate().all(|(x, y)| x == *y) {
+                continue;
+            }
+            out.push((i, applied));
+        }
+        if out.len() >= cap {
+            break;
+        }
+    }
+    out
+}
+
 pub fn build_image(base: &MemImage, writes: &[WriteRec], cp: &CrashPoint) -> MemImage {
     let mut img = base.clone();
     for w in &writes[..cp.full] {
@@ -364,6 +397,7 @@ pub struct Outcome {
     pub problems: Vec<(String, String, serde_json::Value)>,
     pub images: u64,
     pub torn_images: u64,
+    pub subset_images: u64,
     pub lookups: u64,
     pub hits: u64,
     pub acked_judged: u64,
@@ -495,6 +529,50 @@ pub fn run_plan(plan: &Plan, tier: &str) -> Outcome {
             }
             candidates.push((cp.clone(), img, reclaimed));
         }
+        // crash states in which in-flight writes landed out of issue order
+        if out.problems.is_empty() {
+            for (i, applied) in inflight_subsets(&mut rng, &run.writes, if tier == "thorough" { 60 } else { 16 }) {
+                let mut img = base.clone();
+                for j in &applied {
+                    img.apply(&run.writes[*j]);
+                }
+                let reclaimed = reclaimed_before || applied.iter().any(|j| is_clean_write(cfg, &run.writes[*j]));
+                let mut hist: BTreeMap<u64, Vec<(Kind, Status)>> = BTreeMap::new();
+                let ops_here = run.ops.iter().filter(|o| o.writes_before <= i).map(|o| {
+                    let acked = matches!(o.acked_at, Some(a) if (0..a).all(|j| applied.contains(&j)) && a <= i);
+                    (o.key, o.kind.clone(), if acked { Status::Acked } else { Status::Maybe })
+                });
+                for (k, kind, st) in carried.iter().cloned().chain(ops_here) {
+                    hist.entry(k).or_default().push((kind, st));
+                }
+                let (seen, reclaimed_now) = match crate::with_rt(2, read_back(cfg, &img, plan.keys)) {
+                    Ok(s) => s,
+                    Err(e) if e == "TIMEOUT" || e.contains("os error 24") => {
+                        out.inconclusive.push(format!("cycle {ci} in-flight subset at write {i}: {e}"));
+                        continue;
+                    }
+                    Err(e) => {
+                        out.problems.push((format!("reopen-failed-or-panicked:inflight-subset:{}", crate::normalise(&e).chars().take(40).collect::<String>()), format!("cycle {ci}, crash while write #{i} was being issued, writes on the device {applied:?}: {e}"), json!({"cycle":ci,"applied":applied})));
+                        continue;
+                    }
+                };
+                out.images += 1;
+                out.subset_images += 1;
+                let reclaimed = reclaimed || reclaimed_now;
+                for (k, sn) in &seen {
+                    out.lookups += 1;
+                    if let Some((sig, detail)) = judge(cfg, &hist, reclaimed, *k, sn) {
+                        if out.problems.len() < 4 {
+                            out.problems.push((
+                                format!("{sig}:tomb={}:idx={}:inflight-subset", cfg.tombstone, cfg.blob_index_size),
+                                format!("cycle {ci}, crash at the moment write #{i} was issued; completed writes plus a subset of the in-flight ones are on the device: {applied:?} (of {} issued): {detail}; history of the key: {:?}", i + 1, hist.get(k)),
+                                json!({"cycle":ci,"applied":applied,"key":k}),
+                            ));
+                        }
+                    }
+                }
+            }
+        }
         if !out.problems.is_empty() || candidates.is_empty() {
             return out;
         }
@@ -526,6 +604,7 @@ fn absorb(res: &mut ShardResult, plan: &Plan, o: Outcome) {
     res.count("workloads", 1);
     res.count("crash_images_reopened", o.images);
     res.count("torn_images", o.torn_images);
+    res.count("images_with_in_flight_writes_landed_out_of_issue_order", o.subset_images);
     res.count("lookups_after_recovery", o.lookups);
     res.count("hits_after_recovery", o.hits);
     res.count("key_verdicts_with_acked_op_no_reclaim", o.acked_judged);
